@@ -58,6 +58,19 @@ class World:
         g = self.mtime_granularity
         self.mtimes[base] = (t // g) * g if g else t
 
+    def known_mtime(self, base, real):
+        """Simulated modification time of a file.  A file that was last written before this
+        process image started (by an earlier session) gets a seeded age: it was modified in the
+        current timestamp granule (a restart right after the previous run), seconds or a day ago."""
+        if self.clock is None:
+            return real
+        if base not in self.mtimes:
+            age = self.clock.rng.choice((0.0, 0.0, 10.0, 86400.0))
+            t = self.clock.wall - age
+            g = self.mtime_granularity
+            self.mtimes[base] = (t // g) * g if g else t
+        return self.mtimes[base]
+
     def current_proc(self):
         """Identity of the simulated operating-system process that is running."""
         s = self.sched
@@ -423,10 +436,10 @@ class _SimStat:
         self._base = base
 
     def __getattr__(self, name):
-        if name in ("st_mtime", "st_ctime") and self._base in WORLD.mtimes:
-            return WORLD.mtimes[self._base]
-        if name in ("st_mtime_ns", "st_ctime_ns") and self._base in WORLD.mtimes:
-            return int(WORLD.mtimes[self._base] * 1e9)
+        if name in ("st_mtime", "st_ctime"):
+            return WORLD.known_mtime(self._base, getattr(self._real, name))
+        if name in ("st_mtime_ns", "st_ctime_ns"):
+            return int(WORLD.known_mtime(self._base, getattr(self._real, name[:-3])) * 1e9)
         return getattr(self._real, name)
 
     def __getitem__(self, i):
@@ -456,7 +469,7 @@ class OsPathProxy:
     def getmtime(self, p):
         WORLD.point("stat", _base(p))
         real = os.path.getmtime(p)
-        return WORLD.mtimes.get(_base(p), real)
+        return WORLD.known_mtime(_base(p), real)
 
     getctime = getmtime
 
@@ -511,9 +524,10 @@ class SimClock:
         self.reads = 0
         self.jumps = 0
         self.jump_prob = 0.0
+        self.ticks = (0.0, 1e-6, 1e-3, 0.25, 3.0)
 
     def _tick(self):
-        d = self.rng.choice((0.0, 1e-6, 1e-3, 0.25, 3.0))
+        d = self.rng.choice(self.ticks)
         self.mono += d
         self.wall += d
         self.reads += 1
